@@ -464,9 +464,9 @@ def S(ctx, d):
         if d.get("order_by"):
             s = s.order_by(*[E(ctx, x) for x in d["order_by"]])
         if d.get("limit") is not None:
-            s = s.limit(d["limit"])
+            s = s.limit(E(ctx, d["limit"]))
         if d.get("offset") is not None:
-            s = s.offset(d["offset"])
+            s = s.offset(E(ctx, d["offset"]))
         if d.get("group_by"):
             s = s.group_by(*[E(ctx, x) for x in d["group_by"]])
         return _common(ctx, s, d)
